@@ -253,6 +253,9 @@ def check(prog, run):
     from .. import typedrule
     typedrule.run_rule(prog, run, "T1", "lang/printer.py", "printing a parsed tree must not raise", ["py_gql.lang.printer"], 60)
 
+    # ---- G1 the token language of the printer lies within the grammar
+    check_printer_language(prog, run, "G1")
+
     # ---- B1 the dedent applied when the printed block string is read back is ASCII-only (shared with C02.B1)
     from . import c02
     c02.check_block_string_classes(prog, run, "B1", prog.get_class(LEXER, "Lexer"))
@@ -440,3 +443,104 @@ def _endswith_tests_before(fn, ret):
                         if isinstance(v, ast.Constant):
                             found.add(v.value)
     return found
+
+
+def check_printer_language(prog, run, rule_id):
+    """G1: L(printer) within L(reference grammar), and no two word-like tokens fused (vf/printlang.py)."""
+    from .. import extract, printlang, rx
+    from ..spec import grammar as ref
+    from . import c01_grammar
+    r = run.rule(rule_id, "the token language of ASTPrinter — every print_X interpreted abstractly for every slot state a parsed tree can "
+                          "be in (helpers `_join` / `_wrap` / `_block` / `_indent` from their own bodies; strings as regular languages "
+                          "over the parser's token atoms) — lies within the reference grammar C01.G1 holds the parser to, for Type, "
+                          "Value, SelectionSet, each of the definition kinds and the Document frame (product-automaton inclusion, "
+                          "shortest printed token string that is not derivable as witness); and no two word-like tokens (names, "
+                          "numbers) are ever emitted without a separator between them", 20)
+    try:
+        g = extract.Grammar(prog)
+        R = ref.Reference(g)
+    except KeyError as e:
+        raise AnalysisError("C03.%s: %s" % (rule_id, e))
+    try:
+        pl = printlang.PrinterLang(prog, g)
+    except printlang.Unsupported as e:
+        raise AnalysisError("C03.%s: %s" % (rule_id, e))
+    first = R.first()
+    alphabet = sorted(g.atoms, key=str) + [("NT",) + k for k in first] + [("NT", "definition", ())]
+
+    def rename(rg):
+        def f(sm):
+            return rx.sym(frozenset((("NT",) + ref.VAL) if a == ("NT",) + ref.VAL_C else a for a in sm[1]))
+        return printlang.map_syms(rg, f)
+    wordy = g.cls_atoms("Name") | g.cls_atoms("Integer") | g.cls_atoms("Float")
+    definitions = sorted(pl.shapes.expand(["Definition"]))
+    shapes.require(len(definitions) >= 15, "C03.%s: definition classes of lang/ast.py not found" % rule_id)
+    D = rename(rx.alt(R.operation_definition(), R.fragment_definition(True), R.type_system_definition(), R.type_system_extension()))
+    DEF = rx.sym(frozenset([("NT", "definition", ())]))
+    jobs = [("Type", {"NamedType", "ListType", "NonNullType"}, R.type_reference(), None),
+            ("Value", pl.shapes.expand(["Value", "Variable"]), R.value(False), None),
+            ("SelectionSet", {"SelectionSet"}, R.selection_set(), None)]
+    for c in definitions:
+        jobs.append((c, {c}, D, None))
+    jobs.append(("Document", {"Document"}, rx.cat(R.T("SOF"), rx.plus(DEF), R.T("EOF")), frozenset(definitions)))
+    for label, classes, reference, cut in jobs:
+        pl.extra_anchor = cut
+        try:
+            lang = pl.language_of(classes)
+        except printlang.Unsupported as e:
+            raise AnalysisError("C03.%s: cannot interpret the printing of %s: %s" % (rule_id, label, e))
+        fw = printlang.fusion_witness(lang, wordy)
+        tokens = printlang.strip_ws(lang)
+        if label == "Document":
+            tokens = rx.cat(R.T("SOF"), tokens, R.T("EOF"))
+        reference = rename(reference)
+        res = rx.equivalent(rx.alt(tokens, reference), reference, alphabet)
+        r.instance("%s: %s%s" % (label, "within the grammar" if res is None else "NOT within the grammar", "" if fw is None else ", tokens fuse"))
+
+        def show(a):
+            if a == ("NT", "definition", ()):
+                return "<Definition>"
+            return c01_grammar.atom_text(a, g)
+        if res is not None:
+            text = " ".join(show(a) for a in res[0]) or "<nothing>"
+            run.report(r, "%s:ASTPrinter:%s:not-derivable(%s)" % (PRINTER, label, text), "src/py_gql/lang/printer.py",
+                       "printing a %s can produce the token string `%s`, which the grammar does not derive for it: the printed "
+                       "text is rejected by the parser or read back as a different tree" % (label, text), {"witness": [str(a) for a in res[0]]})
+        if fw is not None:
+            text = " ".join(show(a) for a in fw if a != printlang.WS)
+            run.report(r, "%s:ASTPrinter:%s:tokens-fuse(%s)" % (PRINTER, label, text), "src/py_gql/lang/printer.py",
+                       "printing a %s can emit `%s` with the last two tokens not separated: they are read back as one token" % (label, text))
+    pl.extra_anchor = None
+
+    # ---- G2 every present slot is printed on every execution
+    r2 = run.rule("G2", "for every node class and every slot state of a parsed tree, each present content slot (a child, a non-empty "
+                        "list, a token text) is emitted on every execution of its print method (descriptions enabled; the child read "
+                        "from slot s is printed as the single symbol SLOT(s) and every string of the resulting language must contain "
+                        "it): a form chosen under the wrong condition — the short `{...}` form for an operation with variables — drops "
+                        "content that is there; slots no execution prints at all are D2's findings and not repeated here; and no two "
+                        "name-valued slots of one node are printed next to each other with only whitespace between them", 60)
+    for c in sorted(pl.registry):
+        if c not in pl.shapes.ncs:
+            continue
+        try:
+            rows = pl.slot_presence(c)
+        except printlang.Unsupported as e:
+            raise AnalysisError("C03.G2: cannot interpret the printing of %s: %s" % (c, e))
+        for st, slot, miss in rows:
+            if miss == "adjacent":
+                run.report(r2, "%s:ASTPrinter:%s:names-adjacent(%s)" % (PRINTER, c, slot), "src/py_gql/lang/printer.py",
+                           "a %s is printed with the names of its slots %s next to each other, nothing but whitespace between them: no "
+                           "production of the grammar reads two adjacent names back into these two slots" % (c, slot.replace("+", " and ")))
+        rows = [x for x in rows if x[2] != "adjacent"]
+        printed_somewhere = {slot for st, slot, miss in rows if miss is None}
+        by_slot = {}
+        for st, slot, miss in rows:
+            r2.instance("%s.%s present (%s)" % (c, slot, ", ".join("%s=%s" % kv for kv in sorted(st.items()) if kv[1] not in ("some",))), nontrivial=False)
+            if miss is not None and slot in printed_somewhere:
+                by_slot.setdefault(slot, (st, miss))
+        r2.instance("%s: %d (state, slot) obligations" % (c, len(rows)))
+        for slot, (st, miss) in sorted(by_slot.items()):
+            text = " ".join("<%s>" % a[1] if isinstance(a, tuple) and a[0] == "SLOT" else (show(a) if a != printlang.WS else "") for a in miss).split()
+            run.report(r2, "%s:ASTPrinter:%s:slot-dropped(%s)" % (PRINTER, c, slot), "src/py_gql/lang/printer.py",
+                       "a %s whose `%s` is present (%s) can be printed as `%s`, without it: the tree read back lacks that part"
+                       % (c, slot, ", ".join("%s=%s" % kv for kv in sorted(st.items())), " ".join(text) or "<nothing>"))
